@@ -78,6 +78,18 @@ func actOf(cs *Case) activation {
 				a.vars = append(a.vars, []int{i*n + j})
 			}
 		}
+	case "lower": // strict lower triangle + diagonal, every entry its own variable
+		for i := 0; i < n; i++ {
+			for j := 0; j <= i; j++ {
+				a.vars = append(a.vars, []int{i*n + j})
+			}
+		}
+	case "supper": // strict upper triangle only
+		for i := 0; i < n; i++ {
+			for j := i + 1; j < n; j++ {
+				a.vars = append(a.vars, []int{i*n + j})
+			}
+		}
 	case "sym": // one variable carried by A_ij and A_ji
 		i, j := parse2(arg)
 		if i == j {
@@ -115,13 +127,14 @@ type verdict struct {
 	what    string
 	class   string
 	margin  float64 // worst err/tol ratio seen (diagnostic)
+	rmap    string  // observed read map of the float path (structured-input routines)
 }
 
 func regularClass(cs *Case, B exact.Mat) string {
 	switch {
 	case has(cs.Opt, "PD") || cs.Routine == "cholesky":
 		return "spd"
-	case has(cs.Opt, "UT"):
+	case has(cs.Opt, "UT") || cs.Routine == "backSubstitution":
 		return "triangular"
 	case cs.Routine == "matrixInverse" || cs.Routine == "gaussJordan":
 		p := B.PivotPerm()
@@ -155,6 +168,13 @@ func floatRun(cs *Case) callResult {
 
 func isDefEq(r string) bool { return r == "cholesky" || r == "gramSchmidt" || r == "hessenberg" }
 
+// skipOut: outputs the routine never writes (they keep what the caller's buffer held):
+// the strict upper triangle of the Cholesky factor L.
+func skipOut(cs *Case, o int) bool {
+	n := cs.N
+	return cs.Routine == "cholesky" && o < n*n && (o%n) > (o/n)
+}
+
 func judge(cs *Case) verdict {
 	if cs.Routine == "Jacobian" || cs.Routine == "Hessian" {
 		return judgeHelper(cs)
@@ -167,12 +187,60 @@ func judge(cs *Case) verdict {
 	if has(cs.Opt, "sub") {
 		mask = cs.Mask
 	}
-	lr := newLinref(M, mask)
-	needRegular := cs.Routine == "matrixInverse" || cs.Routine == "gaussJordan" || cs.Routine == "cholesky" || cs.Routine == "gramSchmidt" || (cs.Routine == "determinant" && has(cs.Opt, "PD"))
+	// the function of the n*n stored entries that the float path computes: g(R(M))
+	contract := contractOf(cs)
+	forcePD := cs.Routine == "cholesky" && has(cs.Opt, "ForcePD")
+	rm := decideMap(cs)
+	Meff := rm.effective(M)
+	eff := rm.effAct(n, act)
+	asym := (contract == "sym" && !M.IsSymmetric()) || (contract == "upper" && !M.IsUpper())
+	valuesOnly := ""
+	switch {
+	case forcePD:
+	case contract == "sym":
+		if rm == mapBoth {
+			if !asym {
+				if !symmetricAct(n, act) {
+					return verdict{outcome: "skip:no-reference(float path reads both triangles)"}
+				}
+			} else {
+				// no single effective matrix: fast path against generic path only
+				valuesOnly = "ok:values-only(float path reads both triangles)"
+				lo, up := mapSymLower.effective(M), mapSymUpper.effective(M)
+				switch {
+				case lo.IsSPD() && up.IsSPD():
+					Meff = lo
+					if newLinref(up, mask).kap > newLinref(lo, mask).kap {
+						Meff = up
+					}
+				case lo.IsSPD():
+					Meff = lo
+				default:
+					Meff = up
+				}
+			}
+		}
+		if !Meff.IsSPD() {
+			return verdict{outcome: "skip:effective-input-not-spd"}
+		}
+	case contract == "upper":
+		if !Meff.IsUpper() {
+			return verdict{outcome: "skip:not-triangular(float path reads the strict lower triangle)"}
+		}
+	}
+	lr := newLinref(Meff, mask)
+	needRegular := cs.Routine == "matrixInverse" || cs.Routine == "gaussJordan" || cs.Routine == "backSubstitution" || (cs.Routine == "cholesky" && !forcePD) || cs.Routine == "gramSchmidt" || (cs.Routine == "determinant" && has(cs.Opt, "PD"))
 	if needRegular && lr.det == 0 {
 		return verdict{outcome: "skip:singular"}
 	}
-	cls := regularClass(cs, lr.B) + ",act=" + actClass(cs.Act)
+	cls := regularClass(cs, lr.B)
+	if forcePD && !Meff.IsSPD() {
+		cls = "symmetric-not-spd"
+	}
+	if asym {
+		cls += ",triangles-differ"
+	}
+	cls += ",act=" + actClass(cs.Act)
 	if has(cs.Opt, "sub") {
 		cls += ",masked"
 	}
@@ -182,6 +250,12 @@ func judge(cs *Case) verdict {
 		P = lr.inverseProblem()
 	case "gaussJordan":
 		P = lr.solveProblem(cs.Vec)
+	case "backSubstitution":
+		sp := lr.solveProblem(cs.Vec)
+		P = problem{nslots: sp.nslots, nout: n, kappa: sp.kappa, mag: sp.mag,
+			val: func(o int) float64 { return sp.val(n*n + o) },
+			g:   func(o, s int) float64 { return sp.g(n*n+o, s) },
+			h:   func(o, s, t int) float64 { return sp.h(n*n+o, s, t) }}
 	case "determinant":
 		if has(cs.Opt, "PD") {
 			P = lr.detPDProblem(has(cs.Opt, "log"))
@@ -189,7 +263,7 @@ func judge(cs *Case) verdict {
 			P = detProblem(M)
 		}
 	case "cholesky", "gramSchmidt":
-		P = problem{kappa: lr.kap, mag: math.Max(lr.xmax, M.NormInf())}
+		P = problem{kappa: lr.kap, mag: math.Max(lr.xmax, Meff.NormInf())}
 	case "hessenberg":
 		P = problem{kappa: 1, mag: math.Max(1, M.NormInf())}
 	default:
@@ -211,6 +285,9 @@ func judge(cs *Case) verdict {
 		return verdict{outcome: "shape", nontriv: true, bad: "output-shape", what: "magic and float runs return different shapes", class: cls}
 	}
 	v := verdict{outcome: "ok", nontriv: true, class: cls}
+	if contract != "" {
+		v.rmap = contract + " contract, float path reads " + rm.String()
+	}
 	fail := func(bad, what string) verdict {
 		v.outcome, v.bad, v.what = bad, bad, what
 		return v
@@ -225,45 +302,69 @@ func judge(cs *Case) verdict {
 		}
 		return err <= tol
 	}
+	N := act.N()
+	// a variable carried only by entries the float function does not read: no output may
+	// depend on it. Exactly zero, except with caller-supplied in-situ buffers: the stale
+	// derivative state they are pre-filled with legitimately meets rounding residues
+	// (x - x*c/c) in the never-written triangle of L; there the reference value 0 is
+	// compared within the usual tolerance below.
+	unread := func(m int) bool { return len(act.vars[m]) > 0 && len(eff.vars[m]) == 0 }
+	checkUnread := func() (verdict, bool) {
+		if has(cs.Opt, "insitu") {
+			return v, true
+		}
+		for m := 0; m < N; m++ {
+			if !unread(m) {
+				continue
+			}
+			for o, s := range rr.out {
+				if skipOut(cs, o) {
+					continue
+				}
+				bad := d1(s, m) != 0
+				for m2 := 0; m2 < N && !bad; m2++ {
+					bad = d2(s, m, m2) != 0 || d2(s, m2, m) != 0
+				}
+				if bad {
+					return fail("derivative-wrt-unread-entry", fmt.Sprintf("output %d carries a derivative (first %v) with respect to var%d(slots %v): the %s function reads only %v and does not depend on it", o, d1(s, m), m, act.vars[m], floatOf(cs.Elem), rm)), false
+				}
+			}
+		}
+		return v, true
+	}
+	if forcePD {
+		return judgeForcePD(cs, Meff, lr, rm, act, eff, rr, fr, u, v, checkUnread)
+	}
 	// (i)+(iii) values of the magic (generic path) run == float (fast path) run
 	tolFG := 64 * u * P.kappa * P.mag
 	for o := range rr.out {
+		if skipOut(cs, o) {
+			continue
+		}
 		a, b := rr.out[o].GetFloat64(), fr.out[o].GetFloat64()
-		if cs.Routine == "cholesky" && !has(cs.Opt, "LDL") && (o%n) > (o/n) {
-			continue // strict upper triangle of L is never written (caller buffer)
-		}
-		if cs.Routine == "cholesky" && has(cs.Opt, "LDL") {
-			oo := o % (n * n)
-			if o < n*n && (oo%n) > (oo/n) {
-				continue
-			}
-		}
 		if !note(math.Abs(a-b), tolFG) {
-			return fail("magic-value!=float-value", fmt.Sprintf("output %d: %s run gives %v, %s run gives %v (tol %.3g)", o, cs.Elem, a, floatOf(cs.Elem), b, tolFG))
+			return fail("magic-value!=float-value", fmt.Sprintf("output %d: %s run gives %v, %s run gives %v (tol %.3g; float path reads %v)", o, cs.Elem, a, floatOf(cs.Elem), b, tolFG, rm))
 		}
 	}
-	N := act.N()
 	if N == 0 {
 		// constant input: nothing may carry a derivative (stale in-situ state must not leak)
-		for o, s := range rr.out {
-			if cs.Routine == "cholesky" && (o%(n*n))%n > (o%(n*n))/n && o < n*n {
-				continue
-			}
-			for i := 0; i < s.GetN(); i++ {
-				if d1(s, i) != 0 {
-					return fail("stale-derivative-leak", fmt.Sprintf("output %d of a constant input carries derivative %v", o, d1(s, i)))
-				}
-				for j := 0; j < s.GetN(); j++ {
-					if d2(s, i, j) != 0 {
-						return fail("stale-derivative-leak", fmt.Sprintf("output %d of a constant input carries second derivative %v", o, d2(s, i, j)))
-					}
-				}
-			}
+		if bad, what := leak(cs, rr); bad != "" {
+			return fail(bad, what)
+		}
+		if valuesOnly != "" {
+			v.outcome = valuesOnly
 		}
 		return v
 	}
+	if valuesOnly != "" {
+		v.outcome = valuesOnly
+		return v
+	}
+	if r, ok := checkUnread(); !ok {
+		return r
+	}
 	if isDefEq(cs.Routine) {
-		return judgeDefEq(cs, M, lr, act, rr, u, v)
+		return judgeDefEq(cs, Meff, lr, eff, rr, u, v)
 	}
 	if len(rr.out) != P.nout {
 		return fail("output-shape", fmt.Sprintf("%d outputs, expected %d", len(rr.out), P.nout))
@@ -285,19 +386,19 @@ func judge(cs *Case) verdict {
 	for o, s := range rr.out {
 		for m := 0; m < N; m++ {
 			want := 0.0
-			for _, sl := range act.vars[m] {
+			for _, sl := range eff.vars[m] {
 				want += P.g(o, sl)
 			}
 			if got := d1(s, m); !note(math.Abs(got-want), tol1) {
-				return fail("d1!=analytic", fmt.Sprintf("d output[%d]/d var%d(slots %v) = %v, analytic %v (tol %.3g)", o, m, act.vars[m], got, want, tol1))
+				return fail("d1!=analytic", fmt.Sprintf("d output[%d]/d var%d(slots %v, read as %v) = %v, analytic %v (tol %.3g)", o, m, act.vars[m], eff.vars[m], got, want, tol1))
 			}
 		}
 		if act.order >= 2 {
 			for m := 0; m < N; m++ {
 				for m2 := 0; m2 < N; m2++ {
 					want := 0.0
-					for _, s1 := range act.vars[m] {
-						for _, s2 := range act.vars[m2] {
+					for _, s1 := range eff.vars[m] {
+						for _, s2 := range eff.vars[m2] {
 							want += P.h(o, s1, s2)
 						}
 					}
@@ -319,6 +420,96 @@ func judge(cs *Case) verdict {
 	return v
 }
 
+// leak: outputs of a run on constant input must not carry derivatives.
+func leak(cs *Case, rr callResult) (string, string) {
+	for o, s := range rr.out {
+		if skipOut(cs, o) {
+			continue
+		}
+		for i := 0; i < s.GetN(); i++ {
+			if d1(s, i) != 0 {
+				return "stale-derivative-leak", fmt.Sprintf("output %d of a constant input carries derivative %v", o, d1(s, i))
+			}
+			for j := 0; j < s.GetN(); j++ {
+				if d2(s, i, j) != 0 {
+					return "stale-derivative-leak", fmt.Sprintf("output %d of a constant input carries second derivative %v", o, d2(s, i, j))
+				}
+			}
+		}
+	}
+	return "", ""
+}
+
+// judgeForcePD: cholesky.Run(A, LDL, ForcePD) (Gill-Murray modified factorisation).
+// Fast path against generic path on every symmetric input (tolerance from the float
+// run's own factors); on an SPD effective input the modification is inactive
+// (theta_j^2/beta^2 <= c_jj by Cauchy-Schwarz on the Schur complement), the routine is
+// locally the LDL' factorisation and its outputs must satisfy the differentiated
+// equation L*D*L' = A.
+func judgeForcePD(cs *Case, Meff exact.Mat, lr *linref, rm readMap, act, eff activation, rr, fr callResult, u float64, v verdict, checkUnread func() (verdict, bool)) verdict {
+	n := cs.N
+	fail := func(bad, what string) verdict {
+		v.outcome, v.bad, v.what = bad, bad, what
+		return v
+	}
+	if len(rr.out) != 2*n*n {
+		return fail("output-shape", "LDL+ForcePD should return L and D")
+	}
+	mag, dmin := 1.0, math.Inf(1)
+	for _, x := range cs.A {
+		mag = math.Max(mag, math.Abs(float64(x)))
+	}
+	finite := true
+	for o := range fr.out {
+		if skipOut(cs, o) {
+			continue
+		}
+		x := fr.out[o].GetFloat64()
+		if math.IsNaN(x) || math.IsInf(x, 0) {
+			finite = false
+		}
+		mag = math.Max(mag, math.Abs(x))
+		if o >= n*n && (o-n*n)/n == (o-n*n)%n {
+			dmin = math.Min(dmin, x)
+		}
+	}
+	if !finite || !(dmin >= 0.25) {
+		// reference-side gate: a division by a tiny modified pivot amplifies rounding
+		v.outcome = "ok:outcome-only(gated)"
+	} else {
+		tol := tolC * u * mag * mag / (math.Min(dmin, 1) * math.Min(dmin, 1))
+		for o := range rr.out {
+			if skipOut(cs, o) {
+				continue
+			}
+			a, b := rr.out[o].GetFloat64(), fr.out[o].GetFloat64()
+			d := math.Abs(a - b)
+			if r := d / tol; r > v.margin {
+				v.margin = r
+			}
+			if !(d <= tol) {
+				return fail("magic-value!=float-value", fmt.Sprintf("output %d: %s run gives %v, %s run gives %v (tol %.3g; float path reads %v)", o, cs.Elem, a, floatOf(cs.Elem), b, tol, rm))
+			}
+		}
+	}
+	if act.N() == 0 {
+		if bad, what := leak(cs, rr); bad != "" {
+			return fail(bad, what)
+		}
+		return v
+	}
+	if !Meff.IsSPD() || lr.det == 0 || rm == mapBoth && !(Meff.IsSymmetric() && symmetricAct(n, act)) {
+		if v.outcome == "ok" {
+			v.outcome = "ok:values-only(modified factorisation is not differentiated)"
+		}
+		return v
+	}
+	if r, ok := checkUnread(); !ok {
+		return r
+	}
+	return judgeDefEq(cs, Meff, lr, eff, rr, u, v)
+}
+
 // judgeDefEq: differentiated defining equations evaluated in jet arithmetic from the
 // outputs' own derivative slots:  L*L' = A, L*D*L' = A (L unit lower, D diagonal),
 // Q*R = A with Q'Q = I and R upper triangular.
@@ -338,7 +529,7 @@ func judgeDefEq(cs *Case, M exact.Mat, lr *linref, act activation, rr callResult
 	}
 	for m, slots := range act.vars {
 		for _, s := range slots {
-			Aj.e[s].g[m] = 1
+			Aj.e[s].g[m]++
 		}
 	}
 	Ij := newJmat(n, n, N)
@@ -473,6 +664,10 @@ func keyOf(cs *Case, v verdict) string {
 		cls = cls[:i] + rest
 	}
 	valueLevel := v.bad == "value!=reference" || v.bad == "magic-value!=float-value" || strings.HasSuffix(v.bad, "-on-regular") || v.bad == "fast-generic-outcome-differs"
+	if !valueLevel {
+		// ... nor on whether the unread triangle of the input differs from the read one
+		cls = strings.Replace(cls, ",triangles-differ", "", 1)
+	}
 	if !valueLevel && strings.HasPrefix(cls, "pivot-cycles") {
 		// derivative-level failures do not depend on the pivot order class
 		rest := ""
@@ -552,10 +747,30 @@ func patterns(n int, kind string, symmetricInput, withV bool, light bool) []actO
 			}
 		}
 		acts = append(acts, "sym-upper")
+	case "tri":
+		// symmetric input, entries activated individually: every single entry, one triangle
+		// only, all entries (n=1: identical to "sym")
+		if n > 1 {
+			for i := 0; i < n; i++ {
+				for j := 0; j < n; j++ {
+					acts = append(acts, fmt.Sprintf("entry:%d,%d", i, j))
+				}
+			}
+			acts = append(acts, "lower", "supper", "full")
+		}
+	case "asym":
+		// input whose triangles differ (single entries are covered by "full")
+		acts = append(acts, "lower", "supper", "full")
+	case "all":
+		if withV {
+			acts = append(acts, "full+v")
+		} else {
+			acts = append(acts, "full")
+		}
 	}
 	var r []actOrd
 	for _, a := range acts {
-		big := strings.HasPrefix(a, "full") || a == "upper" || a == "sym-upper"
+		big := strings.HasPrefix(a, "full") || a == "upper" || a == "sym-upper" || a == "lower" || a == "supper"
 		if light {
 			// n=3 in the quick tier: order 2 everywhere (it carries the first derivatives
 			// too), order 1 additionally for the large patterns
@@ -570,15 +785,23 @@ func patterns(n int, kind string, symmetricInput, withV bool, light bool) []actO
 	return r
 }
 
-// casesFor lists every configuration run on matrix m. spdFamily: m comes from the
-// symmetric lattice and only the SPD-specific routines are run.
-func casesFor(m exact.Mat, spdFamily, light, sparse bool, elems []string) []Case {
+// casesFor lists every configuration run on matrix m. Family kinds:
+//
+//	"general"  every routine whose precondition m satisfies exactly
+//	"spd"      m from the symmetric lattice; SPD-specific routines on the SPD members
+//	"spd-asym" m = SPD member with its strict upper triangle replaced (triangles differ)
+//	"sym-any"  m from the symmetric lattice, not SPD: cholesky ForcePD (values)
+func casesFor(m exact.Mat, kind string, light, sparse bool, elems []string) []Case {
 	n := m.N
 	A := m.Ints()
 	var cs []Case
 	det := m.Det()
 	upper := m.IsUpper()
 	sym := m.IsSymmetric()
+	diag := int64(1)
+	for i := 0; i < n; i++ {
+		diag *= m.At(i, i)
+	}
 	for _, e := range elems {
 		add := func(routine, opt string, mask []bool, vec []int, ps []actOrd) {
 			for _, p := range ps {
@@ -589,26 +812,60 @@ func casesFor(m exact.Mat, spdFamily, light, sparse bool, elems []string) []Case
 			}
 		}
 		none := []actOrd{{"none", 0}}
-		if spdFamily {
+		pdInv := []string{"PD", "PD+insitu"}
+		pdDet := []string{"PD", "PD+log", "PD+insitu", "PD+log+insitu"}
+		chol := []string{"", "insitu", "LDL", "LDL+insitu", "LDL+ForcePD", "LDL+ForcePD+insitu"}
+		switch kind {
+		case "sym-any":
+			if !sym || m.IsSPD() {
+				continue
+			}
+			add("cholesky", "LDL+ForcePD", nil, nil, none)
+			add("cholesky", "LDL+ForcePD+insitu", nil, nil, none)
+			continue
+		case "spd":
 			if !m.IsSPD() {
 				continue
 			}
-			ps := patterns(n, "sym", true, false, light)
-			for _, o := range []string{"PD", "PD+insitu"} {
+			ps := append(patterns(n, "sym", true, false, light), patterns(n, "tri", true, false, light)...)
+			for _, o := range pdInv {
 				add("matrixInverse", o, nil, nil, ps)
 			}
 			add("matrixInverse", "PD+insitu", nil, nil, none)
-			for _, o := range []string{"PD", "PD+log", "PD+insitu", "PD+log+insitu"} {
+			for _, o := range pdDet {
 				add("determinant", o, nil, nil, ps)
 			}
 			add("determinant", "PD+log+insitu", nil, nil, none)
-			for _, o := range []string{"", "insitu", "LDL", "LDL+insitu"} {
+			for _, o := range chol {
 				add("cholesky", o, nil, nil, ps)
 			}
 			add("cholesky", "insitu", nil, nil, none)
 			add("cholesky", "LDL+insitu", nil, nil, none)
+			add("cholesky", "LDL+ForcePD", nil, nil, none)
+			add("cholesky", "LDL+ForcePD+insitu", nil, nil, none)
 			for _, mk := range allMasks(n) {
 				add("matrixInverse", "PD+sub", mk, nil, []actOrd{{"sym-upper", 2}})
+				if n > 1 {
+					add("matrixInverse", "PD+sub", mk, nil, []actOrd{{"full", 2}})
+				}
+			}
+			continue
+		case "spd-asym":
+			if sym || !mapSymLower.effective(m).IsSPD() {
+				continue
+			}
+			ps := append(patterns(n, "asym", false, false, light), none...)
+			for _, o := range pdInv {
+				add("matrixInverse", o, nil, nil, ps)
+			}
+			for _, o := range pdDet {
+				add("determinant", o, nil, nil, ps)
+			}
+			for _, o := range chol {
+				add("cholesky", o, nil, nil, ps)
+			}
+			for _, mk := range allMasks(n) {
+				add("matrixInverse", "PD+sub", mk, nil, []actOrd{{"full", 2}, {"none", 0}})
 			}
 			continue
 		}
@@ -641,6 +898,24 @@ func casesFor(m exact.Mat, spdFamily, light, sparse bool, elems []string) []Case
 			add("matrixInverse", "UT", nil, nil, up)
 			add("matrixInverse", "UT+insitu", nil, nil, up)
 			add("gaussJordan", "UT", nil, ramp(n), up)
+			add("backSubstitution", "", nil, ramp(n), up)
+		}
+		if diag != 0 {
+			// triangular-contract routines on every matrix with a regular upper triangle: the
+			// strict lower triangle (zero or not) is activated too and must be ignored
+			all := patterns(n, "all", false, false, light)
+			allV := patterns(n, "all", false, true, light)
+			if !upper {
+				all, allV = append(all, none...), append(allV, none...)
+			}
+			if n > 1 {
+				add("matrixInverse", "UT", nil, nil, all)
+				add("matrixInverse", "UT+insitu", nil, nil, all)
+			}
+			add("gaussJordan", "UT", nil, ramp(n), allV)
+			add("backSubstitution", "", nil, ramp(n), allV)
+			add("backSubstitution", "insitu", nil, ramp(n), allV)
+			add("backSubstitution", "insitu", nil, ramp(n), none)
 		}
 	}
 	return cs
@@ -650,8 +925,8 @@ type family struct {
 	name  string
 	n     int
 	count int64
-	at    func(i int64) exact.Mat
-	spd   bool
+	at    func(i int64) exact.Mat // N==0: index not used
+	kind  string
 	light bool
 	elems []string
 	// sparse: only single-entry and full activation patterns (large thorough lattice)
@@ -659,27 +934,81 @@ type family struct {
 }
 
 func lattice(n int, alpha []int64, light bool, elems []string) family {
-	return family{name: fmt.Sprintf("n=%d,entries=%v", n, alpha), n: n, count: exact.LatticeCount(n, alpha), at: func(i int64) exact.Mat { return exact.LatticeAt(n, alpha, i) }, light: light, elems: elems}
+	return family{name: fmt.Sprintf("n=%d,entries=%v", n, alpha), n: n, count: exact.LatticeCount(n, alpha), at: func(i int64) exact.Mat { return exact.LatticeAt(n, alpha, i) }, kind: "general", light: light, elems: elems}
+}
+
+func symAt(n int, alpha []int64, i int64) exact.Mat {
+	k := int64(len(alpha))
+	m := exact.New(n)
+	for r := 0; r < n; r++ {
+		for c := r; c < n; c++ {
+			m.Set(r, c, alpha[i%k])
+			m.Set(c, r, alpha[i%k])
+			i /= k
+		}
+	}
+	return m
+}
+
+func symCount(n int, alpha []int64) int64 {
+	cnt := int64(1)
+	for i := 0; i < n*(n+1)/2; i++ {
+		cnt *= int64(len(alpha))
+	}
+	return cnt
 }
 
 func symLattice(n int, alpha []int64, light bool, elems []string) family {
-	ne := n * (n + 1) / 2
-	cnt := int64(1)
-	for i := 0; i < ne; i++ {
-		cnt *= int64(len(alpha))
-	}
-	k := int64(len(alpha))
-	return family{fmt.Sprintf("n=%d,symmetric,entries=%v(SPD members)", n, alpha), n, cnt, func(i int64) exact.Mat {
-		m := exact.New(n)
-		for r := 0; r < n; r++ {
-			for c := r; c < n; c++ {
-				m.Set(r, c, alpha[i%k])
-				m.Set(c, r, alpha[i%k])
-				i /= k
+	return family{name: fmt.Sprintf("n=%d,symmetric,entries=%v(SPD members)", n, alpha), n: n, count: symCount(n, alpha),
+		at: func(i int64) exact.Mat { return symAt(n, alpha, i) }, kind: "spd", light: light, elems: elems}
+}
+
+// symAnyLattice: the members that are not SPD (cholesky ForcePD accepts any symmetric matrix)
+func symAnyLattice(n int, alpha []int64, elems []string) family {
+	return family{name: fmt.Sprintf("n=%d,symmetric,entries=%v(members that are not SPD)", n, alpha), n: n, count: symCount(n, alpha),
+		at: func(i int64) exact.Mat { return symAt(n, alpha, i) }, kind: "sym-any", elems: elems}
+}
+
+// asymLattice: every SPD member S of the symmetric lattice x every replacement of its
+// strict upper triangle from variantOf (the lower triangle and diagonal stay).
+func asymLattice(n int, alpha []int64, light, thorough bool, elems []string) family {
+	nv := nVariants(n, alpha, thorough)
+	inAlpha := func(x int64) bool {
+		for _, a := range alpha {
+			if a == x {
+				return true
 			}
 		}
-		return m
-	}, true, light, elems, false}
+		return false
+	}
+	what := "S+ramp, zero, +-1 at one position"
+	if thorough {
+		what += ", every assignment of lattice values"
+	}
+	return family{name: fmt.Sprintf("n=%d,SPD members of symmetric entries=%v x strict upper triangle replaced (%s)", n, alpha, what), n: n, count: symCount(n, alpha) * nv,
+		at: func(i int64) exact.Mat {
+			S := symAt(n, alpha, i/nv)
+			v := i % nv
+			if !S.IsSPD() {
+				return exact.Mat{}
+			}
+			M := variantOf(S, v, alpha)
+			if M.IsSymmetric() {
+				return exact.Mat{}
+			}
+			if thorough && v < int64(2+2*nUpper(n)) {
+				// already part of the exhaustive assignment block?
+				dup := true
+				for k := 0; k < nUpper(n); k++ {
+					r, c := upperPos(n, k)
+					dup = dup && inAlpha(M.At(r, c))
+				}
+				if dup {
+					return exact.Mat{}
+				}
+			}
+			return M
+		}, kind: "spd-asym", light: light, elems: elems}
 }
 
 func sumAbs(m exact.Mat) int64 {
@@ -718,11 +1047,14 @@ func explore(c *vf.Ctx, fams []family) {
 				continue
 			}
 			m := f.at(i)
+			if m.N == 0 {
+				continue
+			}
 			if msg := m.CrossCheck(); msg != "" {
 				c.HarnessError("reference self-check: " + msg)
 				return
 			}
-			cases := casesFor(m, f.spd, f.light, f.sparse, f.elems)
+			cases := casesFor(m, f.kind, f.light, f.sparse, f.elems)
 			if len(cases) > 0 {
 				c.Count("matrices:"+f.name, 1)
 			}
@@ -740,6 +1072,9 @@ func explore(c *vf.Ctx, fams []family) {
 				if v.nontriv {
 					c.Count("margin(err/tol):"+cs.Elem+":"+marginBucket(v.margin), 1)
 				}
+				if v.rmap != "" {
+					c.Count("readset:"+cs.Routine+"("+cs.Opt+") "+floatOf(cs.Elem)+": "+v.rmap, 1)
+				}
 				if v.bad != "" {
 					c.Violate(keyOf(cs, v), fmt.Sprintf("%s(%s) %s A=%v mask=%v vec=%v act=%s order=%d: %s", cs.Routine, cs.Opt, cs.Elem, m, cs.Mask, cs.Vec, cs.Act, cs.Order, v.what), rank, cs)
 				}
@@ -755,13 +1090,19 @@ func main() {
 	vf.Main(vf.Spec{
 		ID:    "C06",
 		Level: "exploration",
-		Rule: "every integer matrix of the stated lattices x routine (MdotM, MdotV, VdotM, Outer, matrixInverse, gaussJordan solve, determinant naive/PD/log, cholesky/LDL, gramSchmidt, hessenbergReduction with U) x option set admissible for the matrix (exact SPD / triangular / regular tests) x element type (Real64, Real32) " +
-			"x activation pattern (every single entry, every row, full matrix, full matrix + vector, symmetric upper triangle with A_ij and A_ji carrying the same variable; for UpperTriangular options only entries on or above the diagonal) x order 1,2; " +
+		Rule: "every integer matrix of the stated lattices x routine (MdotM, MdotV, VdotM, Outer, matrixInverse, gaussJordan solve, backSubstitution, determinant naive/PD/log, cholesky/LDL/LDL+ForcePD, gramSchmidt, hessenbergReduction with U) x option set admissible for the matrix (exact SPD / triangular / regular tests) x element type (Real64, Real32) " +
+			"x activation pattern (every single entry, every row, full matrix, full matrix + vector, symmetric upper triangle with A_ij and A_ji carrying the same variable; for UpperTriangular options only entries on or above the diagonal, and all n*n entries) x order 1,2; " +
 			"each case runs the routine on the magic type and on the plain float type (fast path) and compares values, then compares every first and second derivative slot of every output with analytic matrix calculus from the exact inverse/cofactors " +
-			"(or evaluates the differentiated defining equation in an independent jet arithmetic); in-situ buffers are pre-filled with stale values and derivative state; Jacobian/Hessian helpers: every expression of a depth-2 family x point lattice x receiver type x argument type against an independent jet evaluation",
+			"(or evaluates the differentiated defining equation in an independent jet arithmetic); in-situ buffers are pre-filled with stale values and derivative state. " +
+			"Read sets: for routines with a symmetric (cholesky, PositiveDefinite) or triangular (UpperTriangular, backSubstitution) input contract the entries the specialised float path reads are determined per input by differential runs (+1 on every single off-diagonal entry, bitwise comparison); " +
+			"inputs: every SPD lattice member, every SPD member with its strict upper triangle replaced (S+(1,2,3), zero, +-1 at one position; thorough: every assignment of lattice values), every lattice matrix with non-zero diagonal for the triangular routines; " +
+			"on each the generic path must return the float path's values (order 0, and every activation) and the derivatives of g(R(A)), R = the observed read map: activation patterns every single entry of a symmetric input, strict lower triangle + diagonal, strict upper triangle only, all n*n entries; " +
+			"LDL+ForcePD additionally on every symmetric lattice member that is not SPD (values). " +
+			"Jacobian/Hessian helpers: every expression of a depth-2 family x point lattice x receiver type x argument type x argument state (plain, already activated in a wider variable set, carrying stale order-1 / order-2 gradient and Hessian content of the same N from an earlier computation) against an independent jet evaluation",
 		Assume: []string{
 			"tolerances: values 1024*u*kappa*scale, fast-vs-generic 64*u*kappa*scale, derivatives 1024*u*kappa*scale^(order+1); derivative comparison gated (values only) when 1024*u*kappa > 0.02 for the element type",
-			"PositiveDefinite/Cholesky routines are differentiated only along symmetric perturbations (A_ij and A_ji share the variable)",
+			"reference for structured-input routines: the function of the n*n stored entries that the specialised float path computes, f(A)=g(R(A)); on the unchanged library R mirrors the lower triangle (cholesky, LDL, PositiveDefinite determinant/inverse) resp. drops the strict lower triangle (UpperTriangular, backSubstitution); d f/d A_ij = 0 exactly for an unread entry (within tolerance when stale in-situ buffers are supplied), = derivative of g along E_ij+E_ji for a read off-diagonal entry of a symmetric-contract routine",
+			"LDL+ForcePD: differentiated (as L*D*L'=A) only on SPD effective input, where the Gill-Murray modification is provably inactive; elsewhere fast path = generic path on values, compared only when the float run's smallest pivot is >= 1/4",
 			"stale in-situ buffers carry the same number of variables and order as the input (what a previous call with the same variables leaves behind), or a foreign state when the input is constant",
 			"singular inputs are not differentiated (C04 judges them)",
 		},
@@ -776,10 +1117,14 @@ func main() {
 				big.sparse = true
 				fams = []family{lattice(1, a5, false, both), lattice(2, a5, false, both), lattice(3, a3, false, both),
 					symLattice(1, a5, false, both), symLattice(2, a5, false, both), symLattice(3, a5, false, both),
-					big}
+					big,
+					asymLattice(2, a5, false, true, both), asymLattice(3, a5, true, true, both),
+					symAnyLattice(1, a5, both), symAnyLattice(2, a5, both), symAnyLattice(3, a5, both)}
 			} else {
 				fams = []family{lattice(1, a5, false, both), lattice(2, a5, false, both), lattice(3, a3, true, []string{"Real64"}),
-					symLattice(1, a5, false, both), symLattice(2, a5, false, both), symLattice(3, a5, true, both)}
+					symLattice(1, a5, false, both), symLattice(2, a5, false, both), symLattice(3, a5, true, both),
+					asymLattice(2, a5, false, false, both), asymLattice(3, a5, true, false, both),
+					symAnyLattice(1, a5, both), symAnyLattice(2, a5, both), symAnyLattice(3, a3, both)}
 			}
 			explore(c, fams)
 			exploreHelpers(c)
